@@ -235,6 +235,22 @@ PROPS = {
                         "MarshalJSON does not fail (no NaN/Inf or cyclic values: unreachable from a JSON decoder); the channel is read by one logger goroutine"],
         "level_text": "Lean theorems C14_string_easyjson / C14_string_encodingjson (the independent JSON reader undoes both string escapers on every byte string), C14_integer, C14_value (every value tree of any depth), C14_arp/_tcp/_icmp/_socks/_elastic/_docker (the line of each result type reads back as exactly the documented keys and field values, for all field strings and all trees), C14_any_bytes_partial (invalid UTF-8: still one complete object, value read back sanitised), C14_single_line, C14_writes_in_order / C14_output_lines (output = the lines in channel order, one write each), C14_uniq_* (de-duplication = first occurrences by ID: every ID once, at its first sighting, order kept) and C14_one_write_per_result over facts regenerated from command/log. Tied to the code by random hostile results of all 7 kinds through the real MarshalJSON and the real Logger/UniqueLogger (byte-for-byte and write-for-write), with the Spec reader evaluated on the real bytes.",
         "level_note": "Trusted: Lean kernel; the escaper / strconv models and the harness-side reflection walk are validated differentially on every run, not proved; invalid UTF-8 in flat fields is covered by the weaker _partial statement (sanitised value).",
+    "C09": {
+        "modules": ["SxVerif.Props.C09"],
+        "components": ["socks"],
+        "trusted_base": [
+            "modelled, not verified: net.Dialer.DialContext (Timeout 0 = none), net.TCPConn Read/Write/SetReadDeadline/SetWriteDeadline/SetLinger/Close and the Linux semantics of close(2) under SO_LINGER (blocks for a positive linger time, resets at once for 0), encoding/binary.Read of a 2-byte struct = one io.ReadFull = the io.ReadAtLeast loop (go1.23 source), goroutine watchdog = the operation in flight ends when the context is cancelled (Model/Socks.lean); validated by running the real Scanner.Scan against scripted loopback servers and the real socksConn over a recording in-memory conn",
+            "constants regenerated from pkg/scan/socks5/{socks5.go,message.go} by sxfacts (Generated/Socks.lean): NewMethodRequest arguments, operands of the decision, SetLinger argument, MethodReply layout",
+            "write failures of the 3-byte greeting cannot be provoked through a real socket (the kernel buffers it); that path of Scan is covered by the model and by the in-memory conn only",
+        ],
+        "assumptions": [
+            "h_deadline: every blocking operation returns by its deadline - a deadline set by SetReadDeadline/SetWriteDeadline/Dialer.Timeout fires at its instant (built into the model's readOp/writeOp/dialOp; kernel and netpoll latency is the measured scheduling slack, 250 ms in the harness)",
+            "io.Reader contract of a TCP connection: Read of a non-empty buffer never returns 0, nil (hypothesis noEmptyChunk of C09_reads_le_two / C09_time_bound)",
+            "a connect timeout is set (0 < dialT): Go's Dialer.Timeout = 0 means no timeout (`sx socks -t 0`), and then the kernel's own SYN retry limit is the only bound",
+            "steps that do not block (SetLinger, starting the watchdog, building the record) take no time in the model",
+        ],
+        "level_text": "Lean theorems over ALL server scripts (dial outcome x write outcome x any finite sequence of read events: any bytes in any chunking with any delays, EOF, reset, silence x peer acknowledging our FIN or not x any cancellation instant) and all timeout settings: C09_decision (record for the probed target iff connected, greeting sent and the first two reply bytes, as bytes with arrival instants, are 05 00), C09_record, C09_otherwise (nil,nil iff two other bytes were seen; error iff the reply was not seen), C09_greeting / C09_method_request (the request is 05 01 00; WriteTo for every method list), C09_reads_le_two, C09_time_bound (elapsed <= connect timeout + 3 data timeouts), C09_cancel_prompt (a cancelled probe is over by the cancellation instant, no deadline hypothesis), C09_cancel_late, C09_blocking_close_breaks_bound (why SetLinger must not be positive). Constants incl. the SetLinger argument are regenerated from the source each run. Tied to the code by the real Scanner.Scan against scripted loopback TCP servers (all first/second reply bytes, thorough: all 65536 replies; splits, drip feed, late bytes, extra bytes, floods, close/reset/stall at every step, full accept queue, cancellation before/during dial and during either read, peer turning unreachable in a private network namespace) with outcome, greeting seen by the server and wall time compared with the model, and by the real socksConn/WriteTo/ReadFrom over a recording in-memory conn (call-by-call trace).",
+        "level_note": "Trusted: Lean kernel; the net/kernel model is validated differentially, not proved; the time theorems are theorems of the timed model under h_deadline (wall-clock behaviour is measured with 250 ms slack, not proved).",
     },
     "C18": {
         "modules": ["SxVerif.Props.C18"],
